@@ -7,8 +7,10 @@ EXTENDS Big, TLC
 CONSTANTS N, K            \* operands 0..N-1, shift amounts 0..K
 VARIABLES x, y
 vars == <<x, y>>
-Init == x \in 0..(N - 1) /\ y \in 0..(N - 1)
-Next == UNCHANGED vars
+\* two stages (first x, then y) so that TLC's workers evaluate the laws in parallel; the laws are vacuous until both are chosen
+Init == x = N /\ y = N
+Next == \/ x = N /\ x' \in 0..(N - 1) /\ y' = y
+        \/ x < N /\ y = N /\ y' \in 0..(N - 1) /\ x' = x
 Spec == Init /\ [][Next]_vars
 
 F(n) == FromNat(n)
@@ -17,22 +19,26 @@ NatBitLen(n) == IF n = 0 THEN 0 ELSE 1 + NatBitLen(n \div 2)
 RECURSIVE NatChunks(_, _)
 NatChunks(n, w) == IF n = 0 THEN <<>> ELSE <<n % 2^w>> \o NatChunks(n \div 2^w, w)
 
-Repr == IsBig(F(x)) /\ ToNat(F(x)) = x /\ (x = 0 <=> F(x) = Zero)
-AddOK == Add(F(x), F(y)) = F(x + y)
-SubOK == x >= y => Sub(F(x), F(y)) = F(x - y)
-MulOK == Mul(F(x), F(y)) = F(x * y)
-MulSmallOK == y < Base => MulSmall(F(x), y) = F(x * y)
-CmpOK == /\ Lt(F(x), F(y)) <=> x < y
-         /\ Le(F(x), F(y)) <=> x <= y
-         /\ Ge(F(x), F(y)) <=> x >= y
-         /\ Gt(F(x), F(y)) <=> x > y
-ShiftOK == \A k \in 0..K : /\ ShlBits(F(x), k) = F(x * 2^k)
-                           /\ ShrBits(F(x), k) = F(x \div 2^k)
-                           /\ LowBitsB(F(x), k) = F(x % 2^k)
-                           /\ Pow2B(k) = F(2^k)
-                           /\ BitB(F(x), k) = (x \div 2^k) % 2
-BitLenOK == BitLenB(F(x)) = NatBitLen(x)
-DivOK == y # 0 => DivMod(F(x), F(y)) = <<F(x \div y), F(x % y)>>
-ChunksOK == \A w \in 1..K : /\ ChunksB(F(x), w) = [i \in DOMAIN NatChunks(x, w) |-> F(NatChunks(x, w)[i])]
-                            /\ WordsToBig([i \in 1..Len(ChunksB(F(x), w)) |-> ChunksB(F(x), w)[Len(ChunksB(F(x), w)) + 1 - i]], w) = F(x)
+Chosen == x < N /\ y < N
+Repr == Chosen => (IsBig(F(x)) /\ ToNat(F(x)) = x /\ (x = 0 <=> F(x) = Zero))
+AddOK == Chosen => Add(F(x), F(y)) = F(x + y)
+SubOK == (Chosen /\ x >= y) => Sub(F(x), F(y)) = F(x - y)
+MulOK == Chosen => Mul(F(x), F(y)) = F(x * y)
+MulSmallOK == (Chosen /\ y < Base) => MulSmall(F(x), y) = F(x * y)
+CmpLaws == /\ Lt(F(x), F(y)) <=> x < y
+           /\ Le(F(x), F(y)) <=> x <= y
+           /\ Ge(F(x), F(y)) <=> x >= y
+           /\ Gt(F(x), F(y)) <=> x > y
+CmpOK == Chosen => CmpLaws
+ShiftLaws == \A k \in 0..K : /\ ShlBits(F(x), k) = F(x * 2^k)
+                             /\ ShrBits(F(x), k) = F(x \div 2^k)
+                             /\ LowBitsB(F(x), k) = F(x % 2^k)
+                             /\ Pow2B(k) = F(2^k)
+                             /\ BitB(F(x), k) = (x \div 2^k) % 2
+ShiftOK == Chosen => ShiftLaws
+BitLenOK == Chosen => BitLenB(F(x)) = NatBitLen(x)
+DivOK == (Chosen /\ y # 0) => DivMod(F(x), F(y)) = <<F(x \div y), F(x % y)>>
+ChunksLaws == \A w \in 1..K : /\ ChunksB(F(x), w) = [i \in DOMAIN NatChunks(x, w) |-> F(NatChunks(x, w)[i])]
+                              /\ WordsToBig([i \in 1..Len(ChunksB(F(x), w)) |-> ChunksB(F(x), w)[Len(ChunksB(F(x), w)) + 1 - i]], w) = F(x)
+ChunksOK == Chosen => ChunksLaws
 =============================================================================
